@@ -124,6 +124,8 @@ class SqlMachine:
     def row_value(self, row, col):
         """abstract cell value; `self.cell_values[(table, col)]` pins adversarial concrete values"""
         v = self.cell_values.get((row.attrs.get("table"), col))
+        if isinstance(v, list):
+            return v[row.attrs.get("idx", 0) % len(v)]      # per-row values of a multi-row result
         if v is not None:
             return v
         return Opaque(f"{row.label}[{col}]")
@@ -190,7 +192,7 @@ class SqlMachine:
                 m = re.match(r"\s*SELECT\s+(.*?)\s+FROM\b", sql, re.I | re.S)
                 if m and m.group(1).strip() != "*":
                     cols = [c.strip().strip("`\"'") for c in m.group(1).split(",")]
-            return Obj(kind="Row", label=f"row:{table}", attrs={"cols": cols, "table": table})
+            return Obj(kind="Row", label=f"row:{table}", attrs={"cols": cols, "table": table, "idx": cur.attrs.get("_idx", 0)})
 
         def fetchone(I, cur, a, k, n):
             c = I.choose(2, f"fetchone:{cur.attrs.get('last')}")
@@ -199,6 +201,17 @@ class SqlMachine:
             return None
 
         def fetchall(I, cur, a, k, n):
+            kind, table = cur.attrs.get("last") or (None, None)
+            many = getattr(mach, "multi_rows", {}).get(table)
+            if many:
+                # a pinned multi-row result (used to ask what a reader does with repeated rows)
+                cur.attrs["pending"] = None
+                rows = []
+                for i in range(many):
+                    cur.attrs["_idx"] = i
+                    rows.append(row_for(cur))
+                cur.attrs["_idx"] = 0
+                return rows
             c = I.choose(2, f"fetchall:{cur.attrs.get('last')}")
             cur.attrs["pending"] = None
             return [row_for(cur)] if c == 0 else []
